@@ -354,3 +354,24 @@ ADDENDA8 = {
 }
 for _p, _t in ADDENDA8.items():
     CLAIMED[_p]['text'] = CLAIMED[_p]['text'].rstrip() + ' ' + _t
+
+# round 19
+ADDENDA9 = {
+    'C04': "(N, extended) whatever a method hands to eigen() went through the division by the norm — in every method that (re)builds the decomposition; (E, extended) the branch "
+           "lengths reach the exponential unaltered (no clamp / abs / floor in a p_t); (B, extended) MG94 selects each of kappa / alpha / beta against the neutral factor one.",
+    'C05': "(H, extended) the caches a site model converts (to / cuda / cpu) keep their flag (C11.V), the optimiser notifies after every in-place step before anything is evaluated "
+           "(C11.O), the transforms behind shape / pinv / mu keep torch's identity-keyed cache off (C11.X); (Y, extended) no list unpacked into several optional constructor parameters.",
+    'C06': "(H, extended) the time-tree models mark their caches outdated on every event (C11.H) and the reparameterised model recomputes the heights from the current parameter before "
+           "it hands anything out (C07.C caller rule).",
+    'C07': "(L, extended) one log-determinant per sample: no reduction over the whole tensor in the transform modules (C10.D).",
+    'C13': "(P, extended) a range reference looks every member of the range up in the registry; (U, extended) what a factory (or a helper that resolves references) obtains from "
+           "process_object is handed on as the object — its `.tensor` is read for the layout only or written back through its own setter; a Container registers every listed object "
+           "and hands out every registered callable.",
+    'C14': "(C, extended) Container keeps every component; Distribution._sample_shape decided on matrix-valued blocks as well (C10.S, two more abstract cases); an analytic entropy of "
+           "the inverse gamma, if provided, is α + log β + lnΓ(α) − (1 + α)ψ(α) (polynomial identity).",
+    'C18': "(W, extended) a method that calls the atomic writer writes no run state to another file by its own means (torch.save, pickle, numpy, open for writing).",
+    'C20': "(H, extended) the block-update operator restores / proposes through the notifying setter (C11.W on the MCMC operators).",
+    'C10': "(S, extended) matrix-valued blocks (two event dimensions) in the abstract shape cases of Distribution._sample_shape.",
+}
+for _p, _t in ADDENDA9.items():
+    CLAIMED[_p]['text'] = CLAIMED[_p]['text'].rstrip() + ' ' + _t
